@@ -4,7 +4,7 @@
 From Coq Require Import List.
 From Coq.Strings Require Import Byte.
 From GI Require Import Lib.Bytes Gen.DiffConsts Diff.Diff Diff.DiffSpec Diff.DiffBase Diff.DiffProofs
-  Diff.TgsProofs Diff.DiffFacts.
+  Diff.TgsProofs Diff.DiffParse Diff.ParseProofs Diff.CtxFacts Diff.BytesFacts Diff.DiffFacts.
 Import ListNotations.
 
 Theorem C08_diff_nil_iff : forall oldName old newName new,
@@ -55,3 +55,99 @@ Print Assumptions C08_diff_hunks_nonempty.
 Theorem C08_tgs_sound : forall x y, tgs_sound_on x y.
 Proof. exact tgs_sound. Qed.
 Print Assumptions C08_tgs_sound.
+
+(* ---- second wave: the tie to the source text, the context rule, the bytes, the consumer ---- *)
+
+Theorem C08_lines_go_eq : forall d, lines_go d = Ok (lines d).
+Proof. exact lines_go_eq. Qed.
+Print Assumptions C08_lines_go_eq.
+
+Theorem C08_render_header_shape : forall oldName newName,
+  render_header oldName newName =
+  [x64; x69; x66; x66; x20] ++ oldName ++ [x20] ++ newName ++ [x0a] ++
+  [x2d; x2d; x2d; x20] ++ oldName ++ [x0a] ++
+  [x2b; x2b; x2b; x20] ++ newName ++ [x0a].
+Proof. exact render_header_shape. Qed.
+Print Assumptions C08_render_header_shape.
+
+Theorem C08_render_hunk_shape : forall h,
+  render_hunk h =
+  [x40; x40; x20; x2d] ++ dec (sx h) ++ [x2c] ++ dec (cx h) ++
+  [x20; x2b] ++ dec (sy h) ++ [x2c] ++ dec (cy h) ++ [x20; x40; x40; x0a] ++
+  concat (map (fun tl => tag_byte (fst tl) :: snd tl) (body h)).
+Proof. exact render_hunk_shape. Qed.
+Print Assumptions C08_render_hunk_shape.
+
+Theorem C08_hunk_ctx : forall x y hs, diff_hunks x y = Ok hs -> Forall (hunk_ctx_ok x y) hs.
+Proof. exact hunks_ctx. Qed.
+Print Assumptions C08_hunk_ctx.
+
+Theorem C08_hunk_has_change : forall x y hs h,
+  diff_hunks x y = Ok hs -> In h hs -> has_change (body h) = true.
+Proof. exact hunk_has_change. Qed.
+Print Assumptions C08_hunk_has_change.
+
+Theorem C08_zero_count_side : forall x y hs h,
+  diff_hunks x y = Ok hs -> In h hs ->
+  (cx h = 0 -> x = [] /\ sx h = 0) /\ (cy h = 0 -> y = [] /\ sy h = 0).
+Proof. exact zero_count_side. Qed.
+Print Assumptions C08_zero_count_side.
+
+Theorem C08_hunks_separated : forall x y hs l1 h1 h2 l2,
+  diff_hunks x y = Ok hs -> hs = l1 ++ h1 :: h2 :: l2 ->
+  exists lead1 inners1 inners2 trail2 p1 q1 p2 q2,
+    runs (body h1) = lead1 :: inners1 ++ [ctxC] /\
+    runs (body h2) = ctxC :: inners2 ++ [trail2] /\
+    hunk_at x y h1 p1 q1 /\ hunk_at x y h2 p2 q2 /\
+    p1 + cx h1 <= p2 /\ q1 + cy h1 <= q2 /\
+    p2 - (p1 + cx h1) = q2 - (q1 + cy h1) /\
+    sub x (p1 + cx h1) p2 = sub y (q1 + cy h1) q2.
+Proof. exact hunks_separated. Qed.
+Print Assumptions C08_hunks_separated.
+
+Theorem C08_parse_render : forall oldName newName hs, Forall hunk_ok hs ->
+  parse_render oldName newName (render oldName newName hs) = Some hs.
+Proof. exact parse_render_render. Qed.
+Print Assumptions C08_parse_render.
+
+Theorem C08_diff_bytes_parse : forall oldName old newName new out,
+  diff oldName old newName new = Ok out -> old <> new ->
+  exists hs, diff_hunks (lines old) (lines new) = Ok hs /\ out = render oldName newName hs /\
+             parse_render oldName newName out = Some hs.
+Proof. exact diff_bytes_parse. Qed.
+Print Assumptions C08_diff_bytes_parse.
+
+Theorem C08_bytes_patch : forall oldName old newName new out,
+  diff oldName old newName new = Ok out ->
+  patch_bytes oldName newName out (lines old) = Some (lines new) /\
+  unpatch_bytes oldName newName out (lines new) = Some (lines old).
+Proof. exact bytes_patch. Qed.
+Print Assumptions C08_bytes_patch.
+
+Theorem C08_cmp_logged_diff_patches : forall (expand : bytes -> bytes) env name1 name2 text1 data2 d,
+  do_cmp expand false env name1 name2 text1 data2 = CmpFail d ->
+  text1 <> cmp_compared expand env data2 /\ d <> [] /\
+  patch_bytes name1 name2 d (lines text1) = Some (lines (cmp_compared expand env data2)) /\
+  unpatch_bytes name1 name2 d (lines (cmp_compared expand env data2)) = Some (lines text1).
+Proof. exact cmp_logged_diff_patches. Qed.
+Print Assumptions C08_cmp_logged_diff_patches.
+
+Theorem C08_cmp_fails_iff : forall (expand : bytes -> bytes) env name1 name2 text1 data2,
+  (exists d, do_cmp expand false env name1 name2 text1 data2 = CmpFail d) <->
+  text1 <> cmp_compared expand env data2.
+Proof. exact cmp_fails_iff. Qed.
+Print Assumptions C08_cmp_fails_iff.
+
+Theorem C08_source_shapes :
+  lines_sep = [NL] /\
+  diff_fprintf_args =
+  [ [ [x6f;x6c;x64;x4e;x61;x6d;x65]; [x6e;x65;x77;x4e;x61;x6d;x65] ];
+    [ [x6f;x6c;x64;x4e;x61;x6d;x65] ];
+    [ [x6e;x65;x77;x4e;x61;x6d;x65] ];
+    [ [x63;x68;x75;x6e;x6b;x2e;x78]; [x63;x6f;x75;x6e;x74;x2e;x78];
+      [x63;x68;x75;x6e;x6b;x2e;x79]; [x63;x6f;x75;x6e;x74;x2e;x79] ] ] /\
+  cmp_diff_args =
+  [ [x6e;x61;x6d;x65;x31]; [x5b;x5d;x62;x79;x74;x65;x28;x74;x65;x78;x74;x31;x29];
+    [x6e;x61;x6d;x65;x32]; [x5b;x5d;x62;x79;x74;x65;x28;x74;x65;x78;x74;x32;x29] ].
+Proof. exact (conj lines_sep_shape (conj diff_fprintf_args_shape cmp_diff_args_shape)). Qed.
+Print Assumptions C08_source_shapes.
